@@ -18,7 +18,10 @@ import (
 	"io"
 	"log/slog"
 	"net/http"
+	"strconv"
+	"strings"
 	"sync"
+	"sync/atomic"
 
 	"github.com/magisterquis/curlrevshell/lib/opshell"
 	"golang.org/x/sync/errgroup"
@@ -39,7 +42,8 @@ type Broker struct {
 	key       string
 	cancelIn  func()
 	cancelOut func()
-	bidirKey  string /* Bidirectional sentinel key. */
+	bidirKey  string        /* Bidirectional sentinel key. */
+	nBidir    atomic.Uint64 /* Number of bidirectional connections. */
 	wg        sync.WaitGroup
 	noMore    bool
 
@@ -144,17 +148,26 @@ func (b *Broker) ConnectInOut(
 	w io.Writer,
 	r io.Reader,
 ) {
+	/* Both sides of this connection share a key no other connection has,
+	to prevent one side each of two bidirectional connections being taken
+	for a single shell. */
+	key := b.bidirKey + strconv.FormatUint(b.nBidir.Add(1), 10)
 	var wg sync.WaitGroup
 	wg.Add(2)
 	go func() {
 		defer wg.Done()
-		b.ConnectIn(ctx, sl, addr, w, b.bidirKey)
+		b.ConnectIn(ctx, sl, addr, w, key)
 	}()
 	go func() {
 		defer wg.Done()
-		b.ConnectOut(ctx, sl, addr, r, b.bidirKey)
+		b.ConnectOut(ctx, sl, addr, r, key)
 	}()
 	wg.Wait()
+}
+
+// isBidir returns true if key is the key for a bidirectional connection.
+func (b *Broker) isBidir(key string) bool {
+	return strings.HasPrefix(key, b.bidirKey)
 }
 
 // connect makes sure we can use this stream.  It makes sure there's not
@@ -197,7 +210,7 @@ func (b *Broker) connect(
 	/* Make sure the previous shell isn't still disconnecting. */
 	if "" == b.key && (nil != *cancelUs || nil != *cancelOther) {
 		sl.Error(LMDisconnecting)
-		if key == b.bidirKey {
+		if b.isBidir(key) {
 			b.Errorf(
 				addr,
 				"Rejected %s side of bidirectional "+
@@ -220,7 +233,7 @@ func (b *Broker) connect(
 	/* Don't double-connect. */
 	if nil != *cancelUs {
 		sl.Error(LMAlreadyConnected)
-		if key == b.bidirKey {
+		if b.isBidir(key) {
 			b.Errorf(
 				addr,
 				"Rejected unexpected %s side of "+
@@ -248,7 +261,15 @@ func (b *Broker) connect(
 			LKKey, b.key,
 			LKIncorrectKey, key,
 		)
-		if key == b.bidirKey {
+		if b.isBidir(key) && b.isBidir(b.key) {
+			b.Errorf(
+				addr,
+				"Rejected %s side of bidirectonal "+
+					"connection, expected other side of "+
+					"existing bidirectional connection",
+				string(dir),
+			)
+		} else if b.isBidir(key) {
 			b.Errorf(
 				addr,
 				"Rejected %s side of bidirectonal "+
@@ -277,7 +298,7 @@ func (b *Broker) connect(
 
 	/* Note we've a new connection. */
 	sl.Info(LMNewConnection)
-	if key != b.bidirKey {
+	if !b.isBidir(key) {
 		b.Logf(addr, "%s connected: ID %q", dirT, key)
 	}
 
@@ -296,7 +317,7 @@ func (b *Broker) connect(
 
 	/* Actually do the proxy. */
 	ct := "connection"
-	if key == b.bidirKey {
+	if b.isBidir(key) {
 		ct = "side of bidirectional " + ct
 	}
 	msg := fmt.Sprintf("%s %s closed", dirT, ct)
@@ -305,7 +326,7 @@ func (b *Broker) connect(
 		b.Errorf(addr, "%s: %s", msg, err)
 	} else {
 		sl.Info(LMDisconnected)
-		if key != b.bidirKey {
+		if !b.isBidir(key) {
 			b.Errorf(addr, "%s", msg)
 		}
 	}
